@@ -959,6 +959,9 @@ func TestReplayChild(t *testing.T) {
 			if jb.Kind == "manager" {
 				return replayManager(t, tries[u.j], u.leaf, jb)
 			}
+			if jb.Kind == "fw" {
+				return replayFW(t, tries[u.j], u.leaf, jb)
+			}
 			return replayOne(t, tries[u.j], u.leaf, replayCfg{name: jb.Name, mode: "any", nc: jb.NC, nl: jb.NL, wrun: jb.WRun, wterm: jb.WTerm})
 		})
 }
